@@ -8,9 +8,9 @@
       inductor `Z = s·L`, source `sources[k]` with amplitude `u[k]`;
     * `sampleNet … u ẋ`  — the circuit at one instant: capacitor `k` carries the current
       `C_k·ẋ_k`, inductor `k` the voltage `L_k·ẋ_k`, sources their instantaneous values;
-    * `reportOf`         — potentials, voltages and currents as the output rows deliver them
-      from the vector `y = C x + D u` (node potentials, then currents of voltage sources and
-      inductors; every other current by the branch's own law).
+  What the output rows deliver from the vector `y = C x + D u` is the accessor report
+  `(sampleNet …).reportOf y` of CC/Proofs/Sound.lean (node potentials, currents of voltage sources and
+  inductors from `y`; capacitor currents `C·ẋ`, every other current by the branch's own law).
   Mathlib-free.
 -/
 import CC.Model.StateSpace
@@ -32,14 +32,15 @@ def setSource (sources : List String) (u : List K) (b : Branch L K) : Elem K :=
       | .thevenin Y _ => .thevenin Y (u.getD k 0))
   | none => b.e
 
-/-- the circuit at complex frequency `s`, driven by the input amplitudes `u` -/
+/-- the circuit at complex frequency `s`, driven by the input amplitudes `u`: capacitor `k` (position
+in the dictionary) has the admittance `s·C_k`, inductor `k` the impedance `s·L_k` -/
 def phasorNet (N : Net L K) (cvals lvals : ValDict K) (sources : List String) (u : List K) (s : K) : Net L K :=
   N.mapElems fun b =>
-    match cvals.lookup b.id with
-    | some c => .thevenin (s * c) 0
+    match idxOf? b.id cvals.keys with
+    | some k => .thevenin (s * cvals.vals.getD k 0) 0
     | none =>
-      match lvals.lookup b.id with
-      | some l => .norton (s * l) 0
+      match idxOf? b.id lvals.keys with
+      | some k => .norton (s * lvals.vals.getD k 0) 0
       | none => setSource sources u b
 
 /-- the circuit at one sample: reactive elements replaced by sources of strength `value·ẋ_k`
@@ -52,24 +53,6 @@ def sampleNet (N : Net L K) (cvals lvals : ValDict K) (sources : List String) (u
       match idxOf? b.id lvals.keys with
       | some k => .norton 0 (lvals.vals.getD k 0 * xdot.getD (cvals.length + k) 0)
       | none => setSource sources u b
-
-/-- potentials / voltages / currents read from the output vector `y` for the network `N'`
-(the phasor or sample network; `N` is the `w = 0` network that fixes the index maps) -/
-def reportOf (N N' : Net L K) (y : List K) : Report L K :=
-  let pot : L → K := fun n => match idxOf? n N.nodes with
-    | some k => y.getD k 0
-    | none => 0
-  let v : String → K := fun id => match N.get? id with
-    | some b => pot b.n1 - pot b.n2
-    | none => 0
-  { pot := pot, v := v,
-    i := fun id => match idxOf? id N.vsIds with
-      | some k => y.getD (N.nN + k) 0
-      | none => match N'.get? id with
-        | some b => (match b.e with
-            | .norton Z _ => v id / Z
-            | .thevenin Y I => if Y = 0 then I else Y * v id)
-        | none => 0 }
 
 end
 end CC
